@@ -186,6 +186,29 @@ pub fn table() -> Vec<Bad> {
     add("builtin-named-style", vec![], Op::NamedStyleDelete { name: "normal".into() });
     add("duplicate-named-style", vec![Op::NamedStyleCreate { name: "S1".into(), style: st.clone(), num_only: false }, Op::NamedStyleCreate { name: "S2".into(), style: st.clone(), num_only: false }],
         Op::NamedStyleUpdate { name: "S2".into(), new_name: "S1".into(), style: st.clone(), num_only: false });
+    // the same failing rename, but with a new formatting and a cell that uses the style: a partial
+    // edit would show in the named style and in the cell
+    let mut st2 = ironcalc_base::types::Style::default();
+    st2.font.b = true;
+    st2.num_fmt = "0.00".into();
+    let st2 = Box::new(st2);
+    add("duplicate-named-style", vec![
+            Op::NamedStyleCreate { name: "S1".into(), style: st.clone(), num_only: false },
+            Op::NamedStyleCreate { name: "S2".into(), style: st.clone(), num_only: false },
+            Op::SelectCell { row: 2, col: 2 },
+            Op::NamedStyleApply { name: "S2".into() },
+        ],
+        Op::NamedStyleUpdate { name: "S2".into(), new_name: "S1".into(), style: st2.clone(), num_only: false });
+    add("unknown-named-style", vec![], Op::NamedStyleUpdate { name: "nosuch".into(), new_name: "x".into(), style: st2.clone(), num_only: true });
+    add("builtin-named-style", vec![], Op::NamedStyleUpdate { name: "normal".into(), new_name: "normal".into(), style: st2.clone(), num_only: false });
+    // names spelled in another case, ASCII and non-ASCII: accepted or rejected, never half-done
+    for (made, used) in [("Café", "CAFÉ"), ("Café", "café"), ("total", "TOTAL"), ("Größe", "GRÖSSE")] {
+        add("defined-name-case-variant", vec![Op::NameNew { name: made.into(), scope: None, formula: "Sheet1!$A$1".into() }], Op::NameDelete { name: used.into(), scope: None });
+        add("defined-name-case-variant", vec![Op::NameNew { name: made.into(), scope: None, formula: "Sheet1!$A$1".into() }],
+            Op::NameUpdate { name: used.into(), scope: None, new_name: "renamed_x".into(), new_scope: None, formula: "Sheet1!$B$1".into() });
+        add("defined-name-case-variant", vec![Op::NameNew { name: made.into(), scope: None, formula: "Sheet1!$A$1".into() }],
+            Op::NameNew { name: used.into(), scope: None, formula: "Sheet1!$B$1".into() });
+    }
     // ---- edits that would split an array formula (CSE array at B2:C3 of sheet 0)
     let arr = || vec![Op::ArrayFormula { s: 0, row: 2, col: 2, w: 2, h: 2, text: "=A1:B2+1".into() }];
     add("splits-array-formula", arr(), inp(0, 3, 3, "5"));
@@ -317,7 +340,7 @@ pub fn check(case: &Case) -> Outcome {
         if let Err(l) = run_op(&mut um, op, &mut list, &mut cursor) {
             return o.label(format!("setup:{l}"));
         }
-        if um.verif_history_len() == before {
+        if um.verif_history_len() == before && !matches!(op, Op::SelectCell { .. } | Op::SelectSheet(_)) {
             // setup did not take effect (e.g. name already exists): not the intended state
             return o.label("setup:no-effect");
         }
